@@ -78,15 +78,19 @@ def run(ctx):
         validate(ctx, trace, None)
         return
     # 1. configurations from TLC
-    r = ctx.tlc(AREA, "DumpCfgGen", cfg_text=cfggen_cfg(2, 3, 2, 2) if quick else cfggen_cfg(2, 3, 2, 3), workers=4, timeout=600)
+    r = ctx.tlc(AREA, "DumpCfgGen", cfg_text=cfggen_cfg(2, 3, 3, 2) if quick else cfggen_cfg(2, 3, 3, 3), workers=4, timeout=600)
     allcfgs = ctx.printed_json(r.out)
     if not allcfgs:
         raise ToolFailure("no configurations generated")
     # boundary configurations are always included; the rest is a seed-chosen sample (quick) or everything (thorough)
     def boundary(c):
         gs = c["graphs"]
-        return (len(gs) == 2 and gs[0]["nodes"] == 3 and gs[0]["edges"] == 2 and gs[1]["nodes"] in (0, 2) and c["shard"] == 2 and c["batch"] in (1, 2)) \
-            or (len(gs) == 1 and gs[0]["nodes"] == 2 and gs[0]["edges"] == 2 and c["shard"] == c["batch"] == 2)
+        two = (len(gs) == 2 and gs[0]["nodes"] == 3 and gs[0]["edges"] == 2 and gs[1]["nodes"] in (0, 2) and gs[1]["edges"] == min(2, gs[1]["nodes"])
+               and c["shard"] == 2 and c["batch"] in (1, 2))
+        exact = len(gs) == 1 and gs[0]["nodes"] == 2 and gs[0]["edges"] == 2 and c["shard"] == c["batch"] == 2     # count = shard size
+        # many fragments per phase: several committed fragments behind the cursor and entities still outstanding
+        many = len(gs) == 1 and gs[0]["nodes"] == 3 and gs[0]["edges"] == 3 and c["shard"] == 1 and c["batch"] in (1, 2)
+        return two or exact or many
     fixed = [c for c in allcfgs if boundary(c)]
     rest = [c for c in allcfgs if not boundary(c)]
     rng.shuffle(rest)
@@ -143,7 +147,7 @@ def run(ctx):
                     json.dumps(chosen[i]), real, model_steps[i]))
     validate(ctx, trace, chosen)
     ctx.cov["exhaustive"] = False
-    ctx.cov["rule"] = ("TLC enumerates %d configurations (<=2 graphs, <=3 nodes, <=2 relationships, shard/batch 1..%d); %d explored (boundary "
+    ctx.cov["rule"] = ("TLC enumerates %d configurations (<=2 graphs, <=3 nodes, <=3 relationships, shard/batch 1..%d); %d explored (boundary "
                        "ones always, the rest seed-sampled), codec rotating.  Per configuration: crash (SIGKILL) at every step of the first "
                        "run, then resume; a sample (thorough: all pairs for the boundary configurations) of second crashes during the resume; "
                        "a database read error at every fetch; refusal scenarios (changed shard size, one more source node, a stray file).  "
